@@ -46,7 +46,7 @@ def rand_history(rng, n, ttl_l, ttl_n, naddr=3):
             a = rng.randrange(naddr)
             if flip and rng.random() < 0.2:
                 state[a] = not state[a]
-            h.append(q(a, state[a] if rng.random() < 0.9 else not state[a], rng.choice(ERRS)))
+            h.append(dict(q(a, state[a] if rng.random() < 0.9 else not state[a], rng.choice(ERRS)), p=rng.choice([0, 0, 443, 80, 8443])))
         elif r < 0.9:
             h.append(adv(rng.choice(bnd)))
         else:
@@ -63,6 +63,11 @@ def gen_cases(ctx):
         cc = c.get("case") or {}
         if "cfg" in cc and "ops" in cc:
             cases.append((cc["cfg"], cc["ops"], "replay"))
+    # corpus: minimised inputs of past findings, always first
+    cases.append(((3, 0, 2, 1), [q(0, False), q(1, False), q(2, False), q(0, False)], "corpus"))     # #15: non-live capacity ignored
+    cases.append(((3, 1, 2, 0), [q(0, False), q(1, False), q(0, True), q(1, True)], "corpus"))        # #15, the other direction
+    cases.append(((3, 0, 2, 0), [q(0, True), adv(3), q(0, False, 2), q(0, True), CLR, adv(1), CLR], "corpus"))   # boundary instants
+    cases.append(((2, 2, 2, 1), [q(0, True), q(1, True), q(0, True), q(2, True), q(0, False), q(1, False), adv(3), CLR], "corpus"))
     # the configuration space: live-only / non-live-only / both / none, map and LRU, capacities 1..3 and negative
     ttls = [(3, 2), (2, 5), (4, 4)]
     caps = [0, 1, 2, 3, -1]
@@ -320,6 +325,6 @@ def run(ctx):
         check_seq(ctx, sub, res2, "shift")
     ctx.require_kinds(["kinds/map+map", "kinds/lru+lru", "kinds/map+lru", "kinds/lru+map", "kinds/nil+nil", "kinds/nil+map",
                        "kinds/lru+nil", "with-cache-hit", "with-shrink", "shift/rand", "shift/rand8"] +
-                      (["fake/exh", "fake/rand", "fake/rand8"] if fake_ok else ["shift/exh"]))
+                      (["fake/exh", "fake/rand", "fake/rand8", "fake/corpus"] if fake_ok else ["shift/exh", "shift/corpus"]))
     if ctx.tier == "thorough" or os.environ.get("VERIF_C18_CONC") == "1":
         run_conc(ctx)
